@@ -84,6 +84,7 @@ Section Transparent.
       + split; [reflexivity|]. unfold simW; simpl. rewrite Ec, W_drop, En, Ee, Ev. repeat split; reflexivity.
     - split; [reflexivity|exact S0].
     - split; [reflexivity|exact S0].
+    - split; [reflexivity|exact S0].
   Qed.
 
   Theorem sim_trace : forall acts f s1 s2, forallb not_spawn acts = true -> simW s1 s2 -> rrun (S f) acts s1 = rrun f acts s2.
